@@ -47,6 +47,11 @@ def run(ctx):
     fec = mir.fn("Dispatcher::flush_encoding_change")
     order = [(bi, callee_key(t)) for bi, t in fec.calls(r"set_encoding$")]
     r.inst("flush_encoding_change|decoder", sample={"set_encoding_calls": [c for _, c in order]})
+    sg = [fec.deep(fec.blocks[sb]["term"]["d"]) for bi_, c_ in order if "OutputSink::set_encoding" in c_ for sb in guarding_branches(fec, bi_)]
+    dg = [fec.deep(fec.blocks[sb]["term"]["d"]) for bi_, c_ in order if "TextDecoder::set_encoding" in c_ for sb in guarding_branches(fec, bi_)]
+    r.inst("flush_encoding_change|sink-told-whenever-decoder-switches", sample={"sink_guards": [g[:50] for g in sg], "decoder_guards": [g[:50] for g in dg]})
+    if sorted(sg) != sorted(dg):
+        r.violate("flush_encoding_change|sink-told-whenever-decoder-switches", f"the sink's set_encoding is called under different conditions ({[g[:60] for g in sg]}) than the decoder's switch ({[g[:60] for g in dg]}): e.g. with emission disabled (a <meta charset> inside removed content) the following bytes are produced in the new encoding without the sink ever being told", fec.loc())
     if not any("TextDecoder::set_encoding" in c for _, c in order) or not any("OutputSink::set_encoding" in c for _, c in order):
         r.violate("flush_encoding_change|decoder", "flush_encoding_change must switch the text decoder and notify the sink", fec.loc())
 
